@@ -17,7 +17,6 @@ import (
 	"net/http/httptest"
 	"net/url"
 	"os"
-	"sort"
 	"strings"
 	"sync"
 	"testing"
@@ -38,6 +37,8 @@ const (
 	c02HdrBackend  = "Spreed-Signaling-Backend"
 	c02Room        = "c02room"
 	c02MaxBody     = 256 * 1024
+	// backend.timeout (seconds) of the servers of the outgoing scenario: what a "slow" fault has to outlast
+	c02BackendTimeout = 2
 )
 
 func c02Mac(secret string, rnd string, body []byte) string {
@@ -110,6 +111,39 @@ type c02OutRec struct {
 	Phase string  // which step of the configuration history
 	Cur   *string // secret the generator configured for the backend at this endpoint's URL now (nil: none)
 	Look  *string // secret of hub.backend.GetBackend(request URL) now (nil: none); oracle for the model
+	// what the fake backend did with this request after having read and recorded it ("": answered)
+	Fault string
+	Spec  *c02FaultSpec // the step of the schedule the fault belongs to
+	Path  string        // request path
+}
+
+// Faults of the fake backend.  The request has been read completely and recorded (the backend "has
+// seen and may have processed it") when the fault strikes:
+//
+//	drop            the connection is closed without a single response byte
+//	partial-status  the connection is closed in the middle of the status line
+//	partial-body    status line and headers are sent (Content-Length of the full answer), half of the body, then the connection is closed
+//	500-text        500 Internal Server Error, text/plain
+//	500-json        500 with an OCS envelope reporting failure and no data
+//	slow            no answer until the client has given up (its timeout for backend requests expired); the answer after
+//	                timeout + 0.5 s when it has not
+//
+// In every case the server's request failed; whatever the server does about it (give up, report
+// the error, try again) a request that arrives here is a request it sent, and is recorded.
+var c02FaultModes = []string{"drop", "partial-body", "500-text", "partial-status", "500-json"}
+
+type c02FaultKey struct {
+	id   int
+	kind string
+}
+
+// one injected fault (for the replay file)
+type c02FaultSpec struct {
+	Endpoint int    `json:"endpoint"`
+	Kind     string `json:"kind"`
+	Phase    string `json:"phase"`
+	Nth      int    `json:"nth"` // the Nth step of this kind in this phase of the world's history (0 = first)
+	Mode     string `json:"mode"`
 }
 
 type c02Fake struct {
@@ -122,6 +156,74 @@ type c02Fake struct {
 	cur    map[int]string
 	phase  string
 	lookup func(u *url.URL) *string
+	// armed faults: the next request of that kind arriving at that endpoint is treated that way
+	armed  map[c02FaultKey][]c02FaultSpec
+	busy   int // requests being handled (a slow one stays here until the client gives up)
+	faults int
+}
+
+// arm makes the next request of kind `kind` that arrives at endpoint id fail in the given way.
+func (f *c02Fake) arm(id int, kind string, spec c02FaultSpec) {
+	f.mu.Lock()
+	defer f.mu.Unlock()
+	if f.armed == nil {
+		f.armed = map[c02FaultKey][]c02FaultSpec{}
+	}
+	k := c02FaultKey{id, kind}
+	f.armed[k] = append(f.armed[k], spec)
+}
+
+// spent: every fault armed for (id, kind) has struck and no request is being handled any more.
+func (f *c02Fake) spent(id int, kind string) bool {
+	f.mu.Lock()
+	defer f.mu.Unlock()
+	return len(f.armed[c02FaultKey{id, kind}]) == 0 && f.busy == 0
+}
+
+// strike applies a fault to a request that was read and recorded.  data is the answer a healthy
+// backend would have given.
+func (f *c02Fake) strike(mode string, w http.ResponseWriter, r *http.Request, data []byte) {
+	hijack := func(send string) {
+		hj, ok := w.(http.Hijacker)
+		if !ok {
+			panic("c02: cannot hijack the connection of the fake backend")
+		}
+		conn, _, err := hj.Hijack()
+		if err != nil {
+			return
+		}
+		if send != "" {
+			conn.Write([]byte(send)) // nolint
+		}
+		conn.Close() // nolint
+	}
+	switch mode {
+	case "drop":
+		hijack("")
+	case "partial-status":
+		hijack("HTTP/1.1 2")
+	case "partial-body":
+		hijack(fmt.Sprintf("HTTP/1.1 200 OK\r\nContent-Type: application/json\r\nContent-Length: %d\r\n\r\n%s", len(data), data[:len(data)/2]))
+	case "500-text":
+		http.Error(w, "Internal Server Error", http.StatusInternalServerError)
+	case "500-json":
+		w.Header().Set("Content-Type", "application/json")
+		w.WriteHeader(http.StatusInternalServerError)
+		w.Write([]byte(`{"ocs":{"meta":{"status":"failure","statuscode":500,"message":"Internal Server Error"},"data":[]}}`)) // nolint
+	case "slow":
+		// the connection is closed by the client when its timeout expires: the request context ends.
+		// (The notification that a user left a room is sent without timeout - context.Background() in
+		// ClientSession.doUnsubscribeRoomEvents: there the answer comes, half a second after any timeout.)
+		select {
+		case <-r.Context().Done():
+		case <-time.After(c02BackendTimeout*time.Second + 500*time.Millisecond):
+			w.Header().Set("Content-Type", "application/json")
+			w.WriteHeader(http.StatusOK)
+			w.Write(data) // nolint
+		}
+	default:
+		panic("c02: unknown fault " + mode)
+	}
 }
 
 // setCur replaces the table of secrets in force (after the configuration of the server was changed).
@@ -162,11 +264,21 @@ func (f *c02Fake) handler(t *testing.T, id int) http.HandlerFunc {
 		if s, ok := f.cur[id]; ok {
 			cur = &s
 		}
+		fault := ""
+		var spec *c02FaultSpec
+		if l := f.armed[c02FaultKey{id, kind}]; len(l) > 0 {
+			sp := l[0]
+			fault, spec = sp.Mode, &sp
+			f.armed[c02FaultKey{id, kind}] = l[1:]
+			f.faults++
+		}
+		f.busy++
 		f.recs = append(f.recs, c02OutRec{Backend: id, Kind: kind,
 			Rnd: r.Header.Get(c02HdrRandom), Chk: r.Header.Get(c02HdrChecksum),
 			NRnd: len(r.Header.Values(c02HdrRandom)), NChk: len(r.Header.Values(c02HdrChecksum)),
-			Body: body, Phase: f.phase, Cur: cur, Look: look})
+			Body: body, Phase: f.phase, Cur: cur, Look: look, Fault: fault, Spec: spec, Path: r.URL.Path})
 		f.mu.Unlock()
+		defer func() { f.mu.Lock(); f.busy--; f.mu.Unlock() }()
 		var resp *BackendClientResponse
 		switch req.Type {
 		case "auth":
@@ -184,6 +296,10 @@ func (f *c02Fake) handler(t *testing.T, id int) http.HandlerFunc {
 		data, _ := json.Marshal(resp)
 		if r.Header.Get("OCS-APIRequest") != "" {
 			data, _ = json.Marshal(OcsResponse{Ocs: &OcsBody{Meta: OcsMeta{Status: "ok", StatusCode: http.StatusOK, Message: "OK"}, Data: data}})
+		}
+		if fault != "" {
+			f.strike(fault, w, r, data)
+			return
 		}
 		w.Header().Set("Content-Type", "application/json")
 		w.WriteHeader(http.StatusOK)
@@ -226,6 +342,14 @@ type c02World struct {
 	http    *http.Client
 	layout  []c02Entry          // what is configured now (outgoing scenario with reloads)
 	etcd    *backendStorageEtcd // Etcd configurations
+	plan    *c02FaultPlan       // outgoing scenario: which requests the fake backends let fail (nil: none)
+	// what the callers of failed requests saw, where a client of the server can see it (hello, room join)
+	outcomes []c02Outcome
+}
+
+type c02Outcome struct {
+	Spec c02FaultSpec
+	Ok   bool // the client was answered as if the backend had answered
 }
 
 // backend<Name> is configured at the URL of endpoint Endpoint (base[Endpoint-1]) with Secret
@@ -371,6 +495,10 @@ func c02NewWorld(t *testing.T, cfg c02Cfg, join bool) *c02World {
 		w.layout = append(w.layout, c02Entry{Name: id, Endpoint: id, Secret: w.secret(id)})
 	}
 	config := w.serverConfig(w.layout)
+	if !join {
+		// outgoing scenario: the server gives up on a backend that does not answer after this many seconds
+		config.AddOption("backend", "timeout", fmt.Sprint(c02BackendTimeout))
+	}
 	w.fake.setCur("initial", c02CurOf(w.layout))
 	events := getAsyncEventsForTest(t)
 	hub, err := NewHub(config, events, nil, nil, nil, w.router, "no-version")
@@ -559,6 +687,18 @@ type c02Case struct {
 	// a request the server sent to a backend (outgoing direction); replayed by running the
 	// outgoing scenario of this configuration again
 	Outgoing *c02OutJson `json:"outgoing,omitempty"`
+	// outgoing: the faults of the fake backends under which the request was sent.  A replay with this
+	// member runs the history of the configuration with exactly these faults (none when empty);
+	// without it, with the whole fault schedule.
+	Faults *[]c02FaultSpec `json:"faults,omitempty"`
+}
+
+type c02OutRef struct {
+	Id      int    `json:"id"`
+	Backend int    `json:"backend"`
+	Kind    string `json:"kind"`
+	Phase   string `json:"phase,omitempty"`
+	Fault   string `json:"fault,omitempty"`
 }
 
 type c02OutJson struct {
@@ -573,6 +713,11 @@ type c02OutJson struct {
 	Phase  string  `json:"phase,omitempty"`
 	Secret *string `json:"secret_in_force,omitempty"`
 	Lookup *string `json:"secret_of_lookup,omitempty"`
+	// what the fake backend did to this request after recording it ("": it answered)
+	Fault string `json:"fault,omitempty"`
+	Path  string `json:"path,omitempty"`
+	// an earlier request of the same world that carried the same random
+	SameRandomAs *c02OutRef `json:"same_random_as,omitempty"`
 }
 
 func unhexS(s string) string { b, _ := hex.DecodeString(s); return string(b) }
@@ -1371,18 +1516,23 @@ func TestVerifC02(t *testing.T) {
 		readReplay(t, env.replay, &cs)
 		var outCfgs []c02Cfg
 		seen := map[string]bool{}
+		scripts := map[string][]c02FaultSpec{}
 		for i := range cs {
 			if cs[i].Outgoing != nil {
-				if k := cs[i].Cfg.key(); !seen[k] {
+				k := cs[i].Cfg.key()
+				if !seen[k] {
 					seen[k] = true
 					outCfgs = append(outCfgs, cs[i].Cfg)
+				}
+				if cs[i].Faults != nil {
+					scripts[k] = append(scripts[k], *cs[i].Faults...)
 				}
 				continue
 			}
 			run(&cs[i])
 		}
 		if len(outCfgs) > 0 {
-			c02Outgoing(t, env, sink, outCfgs)
+			c02Outgoing(t, env, sink, outCfgs, scripts)
 		}
 		sink.close("replay")
 		return
@@ -1474,7 +1624,7 @@ func TestVerifC02(t *testing.T) {
 			outCfgs = append(outCfgs, c)
 		}
 	}
-	c02Outgoing(t, env, sink, outCfgs)
+	c02Outgoing(t, env, sink, outCfgs, nil)
 
 	sink.close("seeded requests to /api/v1/room/{id} of the real BackendServer+Hub (real HTTP connection or router call) over six configurations; " +
 		"non-trivial = the case contains an accepted (200) and a refused (403) request; distinct = distinct (configuration, class, status, delivery) sequences")
@@ -1684,21 +1834,164 @@ func (d *c02Drive) grew(k string) func() bool {
 	return func() bool { return d.w.kinds()[d.key(k)] > d.before[d.key(k)] }
 }
 
+// ---- fault schedule of the outgoing scenario ------------------------------------------------------
+//
+// Steps of a drive, by the request they make the server send.  "v..." are the room join / leave
+// requests for a virtual session (same request kind on the wire as a user's join / leave).
+var c02StepKinds = []string{"auth", "room/join", "ping", "session/add", "session/remove", "vroom/join", "vroom/leave", "room/leave"}
+
+func c02WireKind(step string) string { return strings.TrimPrefix(step, "v") }
+
+// Which step meets which fault.  Counted per (phase of the configuration history, kind of step):
+// the first step of every kind in every phase loses its connection before a response byte was
+// written, the following ones go through the other faults and healthy answers (rotation by seed
+// and kind); `slow` kinds get one answer that never comes in the initial phase.  A replay file
+// can name the faults instead (script): then exactly those strike.
+type c02FaultPlan struct {
+	offset   int
+	slow     map[string]bool
+	count    map[string]int
+	scripted bool
+	script   []c02FaultSpec
+	struck   []c02FaultSpec
+}
+
+func c02NewFaultPlan(seed int64, world int, script []c02FaultSpec, scripted bool) *c02FaultPlan {
+	p := &c02FaultPlan{offset: int(uint64(seed)%1000) + world, slow: map[string]bool{}, count: map[string]int{}, script: script, scripted: scripted}
+	// one kind per world waits for the client's timeout (it costs the timeout): over the eight worlds of a run every kind does
+	p.slow[c02StepKinds[(world+int(uint64(seed)%8))%len(c02StepKinds)]] = true
+	return p
+}
+
+func (p *c02FaultPlan) next(endpoint int, phase, step string) *c02FaultSpec {
+	if p == nil {
+		return nil
+	}
+	key := phase + "|" + step
+	n := p.count[key]
+	p.count[key]++
+	mode := ""
+	if p.scripted {
+		for _, f := range p.script {
+			if f.Endpoint == endpoint && f.Kind == step && f.Phase == phase && f.Nth == n {
+				mode = f.Mode
+			}
+		}
+	} else {
+		ki := 0
+		for i, k := range c02StepKinds {
+			if k == step {
+				ki = i
+			}
+		}
+		cyc := []string{"partial-body", "500-text", "", "partial-status", "500-json", "drop", ""}
+		switch {
+		case n == 0:
+			mode = "drop"
+		case n == 1 && phase == "initial" && p.slow[step]:
+			mode = "slow"
+		default:
+			mode = cyc[(n-1+p.offset+ki)%len(cyc)]
+		}
+	}
+	if mode == "" {
+		return nil
+	}
+	p.struck = append(p.struck, c02FaultSpec{Endpoint: endpoint, Kind: step, Phase: phase, Nth: n, Mode: mode})
+	return &p.struck[len(p.struck)-1]
+}
+
+// done: a replay named faults and all of them have struck: the rest of the history is not needed.
+func (p *c02FaultPlan) done() bool {
+	if p == nil || !p.scripted || len(p.script) == 0 {
+		return false
+	}
+	for _, f := range p.script {
+		hit := false
+		for _, g := range p.struck {
+			hit = hit || f == g
+		}
+		if !hit {
+			return false
+		}
+	}
+	return true
+}
+
+// arm: the fault the schedule has for this step (if any) is armed at the endpoint of this drive.
+func (d *c02Drive) arm(step string) bool {
+	w := d.w
+	w.fake.mu.Lock()
+	phase := w.fake.phase
+	w.fake.mu.Unlock()
+	spec := w.plan.next(d.id, phase, step)
+	if spec == nil {
+		return false
+	}
+	w.fake.arm(d.id, c02WireKind(step), *spec)
+	return true
+}
+
+// outcome notes what the client saw of the step whose fault was armed last.
+func (d *c02Drive) outcome(ok bool) {
+	p := d.w.plan
+	d.w.outcomes = append(d.w.outcomes, c02Outcome{Spec: p.struck[len(p.struck)-1], Ok: ok})
+}
+
+// struck waits until the armed fault has hit a request and the backend is done with it (a slow
+// request: until the server gave up), then a little longer: whatever the server sends because of
+// the failure belongs to this step (and to the configuration in force now).
+func (d *c02Drive) struck(step string) {
+	c02WaitFor(d.w.t, "fault at "+step, func() bool { return d.w.fake.spent(d.id, c02WireKind(step)) })
+	time.Sleep(12 * time.Millisecond)
+}
+
 func (w *c02World) driveStart(id int, round int) *c02Drive {
 	t := w.t
 	ctx, cancel := context.WithTimeout(context.Background(), testTimeout)
 	defer cancel()
 	d := &c02Drive{w: w, id: id, before: w.kinds(), room: fmt.Sprintf("out-room-%d-%d", id, round)}
 	// auth + room join
-	d.c = NewTestClient(t, w.server, w.hub)
-	if err := d.c.SendHelloParams(w.base[id-1], HelloVersionV1, "", nil, TestBackendClientAuthParams{UserId: fmt.Sprintf("out%d", round)}); err != nil {
-		t.Fatal(err)
+	if d.arm("auth") {
+		// the backend fails while this client says hello: the client is told so and goes away; the next one gets through
+		fc := NewTestClient(t, w.server, w.hub)
+		if err := fc.SendHelloParams(w.base[id-1], HelloVersionV1, "", nil, TestBackendClientAuthParams{UserId: fmt.Sprintf("out%d", round)}); err != nil {
+			t.Fatal(err)
+		}
+		msg, err := fc.RunUntilMessage(ctx)
+		if err != nil {
+			t.Fatalf("outgoing: hello backend %d while the backend fails: %v", id, err)
+		}
+		d.struck("auth")
+		// the model says the client is told about the error; a server that gets the client through
+		// nevertheless is kept under observation (judged in Coq, code 5)
+		d.outcome(msg.Type == "hello")
+		if msg.Type == "hello" {
+			d.c = fc
+		} else {
+			fc.CloseWithBye()
+		}
 	}
-	if _, err := d.c.RunUntilHello(ctx); err != nil {
-		t.Fatalf("outgoing: hello backend %d: %v", id, err)
+	if d.c == nil {
+		d.c = NewTestClient(t, w.server, w.hub)
+		if err := d.c.SendHelloParams(w.base[id-1], HelloVersionV1, "", nil, TestBackendClientAuthParams{UserId: fmt.Sprintf("out%d", round)}); err != nil {
+			t.Fatal(err)
+		}
+		if _, err := d.c.RunUntilHello(ctx); err != nil {
+			t.Fatalf("outgoing: hello backend %d: %v", id, err)
+		}
 	}
-	if _, err := d.c.JoinRoom(ctx, d.room); err != nil {
-		t.Fatalf("outgoing: join backend %d: %v", id, err)
+	joined := false
+	if d.arm("room/join") {
+		_, err := d.c.JoinRoom(ctx, d.room)
+		joined = err == nil
+		d.struck("room/join")
+		d.outcome(joined)
+	}
+	if !joined {
+		if _, err := d.c.JoinRoom(ctx, d.room); err != nil {
+			t.Fatalf("outgoing: join backend %d: %v", id, err)
+		}
 	}
 	c02WaitFor(t, "auth", d.grew("auth"))
 	c02WaitFor(t, "room/join", d.grew("room/join"))
@@ -1737,8 +2030,16 @@ func (d *c02Drive) pingNow() {
 func (d *c02Drive) rest() {
 	w, t, room := d.w, d.w.t, d.room
 	ic, c := d.ic, d.c
-	d.before = w.kinds()
 	// ping (direct, or queued and sent combined when the backend announces a ping limit)
+	if d.arm("ping") {
+		d.before = w.kinds()
+		c02WaitFor(t, "ping", func() bool {
+			d.pingNow()
+			return d.grew("ping")()
+		})
+		d.struck("ping")
+	}
+	d.before = w.kinds()
 	c02WaitFor(t, "ping", func() bool {
 		d.pingNow()
 		return d.grew("ping")()
@@ -1746,31 +2047,66 @@ func (d *c02Drive) rest() {
 	common := func(sid string) CommonSessionInternalClientMessage {
 		return CommonSessionInternalClientMessage{SessionId: sid, RoomId: room}
 	}
-	// virtual sessions through the internal client; without options: session add / remove
-	if err := ic.SendInternalAddSession(&AddSessionInternalClientMessage{CommonSessionInternalClientMessage: common("v1"), UserId: "vuser1"}); err != nil {
-		t.Fatal(err)
+	// virtual sessions through the internal client; without options: session add / remove.
+	// A failing backend: the session is not added (the internal client is told "add_failed") and is added again;
+	// a removal happens in the server whether the backend hears of it or not.
+	arrived := func(kind string) func() bool {
+		n := w.kinds()[d.key(kind)]
+		return func() bool { return w.kinds()[d.key(kind)] > n }
 	}
-	c02WaitFor(t, "session/add", d.grew("session/add"))
+	add1 := func() func() bool {
+		f := arrived("session/add")
+		if err := ic.SendInternalAddSession(&AddSessionInternalClientMessage{CommonSessionInternalClientMessage: common("v1"), UserId: "vuser1"}); err != nil {
+			t.Fatal(err)
+		}
+		return f
+	}
+	if d.arm("session/add") {
+		c02WaitFor(t, "session/add (backend fails)", add1())
+		d.struck("session/add")
+	}
+	c02WaitFor(t, "session/add", add1())
+	failing := d.arm("session/remove")
+	f := arrived("session/remove")
 	if err := ic.SendInternalRemoveSession(&RemoveSessionInternalClientMessage{CommonSessionInternalClientMessage: common("v1"), UserId: "vuser1"}); err != nil {
 		t.Fatal(err)
 	}
-	c02WaitFor(t, "session/remove", d.grew("session/remove"))
-	// with options: room join / leave for the virtual session
-	joins, leaves := w.kinds()[d.key("room/join")], w.kinds()[d.key("room/leave")]
-	if err := ic.SendInternalAddSession(&AddSessionInternalClientMessage{CommonSessionInternalClientMessage: common("v2"), UserId: "vuser2",
-		Options: &AddSessionOptions{ActorId: "actor", ActorType: "type"}}); err != nil {
-		t.Fatal(err)
+	c02WaitFor(t, "session/remove", f)
+	if failing {
+		d.struck("session/remove")
 	}
-	c02WaitFor(t, "virtual room/join", func() bool { return w.kinds()[d.key("room/join")] > joins })
+	// with options: room join / leave for the virtual session
+	add2 := func() func() bool {
+		f := arrived("room/join")
+		if err := ic.SendInternalAddSession(&AddSessionInternalClientMessage{CommonSessionInternalClientMessage: common("v2"), UserId: "vuser2",
+			Options: &AddSessionOptions{ActorId: "actor", ActorType: "type"}}); err != nil {
+			t.Fatal(err)
+		}
+		return f
+	}
+	if d.arm("vroom/join") {
+		c02WaitFor(t, "virtual room/join (backend fails)", add2())
+		d.struck("vroom/join")
+	}
+	c02WaitFor(t, "virtual room/join", add2())
+	failing = d.arm("vroom/leave")
+	f = arrived("room/leave")
 	if err := ic.SendInternalRemoveSession(&RemoveSessionInternalClientMessage{CommonSessionInternalClientMessage: common("v2"), UserId: "vuser2"}); err != nil {
 		t.Fatal(err)
 	}
-	c02WaitFor(t, "virtual room/leave", func() bool { return w.kinds()[d.key("room/leave")] > leaves })
-	leaves = w.kinds()[d.key("room/leave")]
+	c02WaitFor(t, "virtual room/leave", f)
+	if failing {
+		d.struck("vroom/leave")
+	}
 	ic.CloseWithBye()
 	// the client leaves the room: room leave
+	failing = d.arm("room/leave")
+	f = arrived("room/leave")
 	c.CloseWithBye()
-	c02WaitFor(t, "room/leave", func() bool { return w.kinds()[d.key("room/leave")] > leaves })
+	c02WaitFor(t, "room/leave", f)
+	if failing {
+		d.struck("room/leave")
+	}
 }
 
 // restRemoved: the second half for sessions whose backend is no longer configured.  The server has
@@ -1873,13 +2209,33 @@ func (w *c02World) reloadHistory(r *vrng) {
 	w.drive(1, 107)
 }
 
-func c02Outgoing(t *testing.T, env verifEnv, sink *caseSink, cfgs []c02Cfg) {
+// the fate of a request in model/OutReq.v
+func c02FateCoq(mode string) string {
+	switch {
+	case mode == "drop":
+		return "(fate_of 1)"
+	case strings.HasPrefix(mode, "partial"):
+		return "(fate_of 2)"
+	case strings.HasPrefix(mode, "500"):
+		return "(fate_of 3)"
+	case mode == "slow":
+		return "(fate_of 4)"
+	}
+	return "(fate_of 0)"
+}
+
+// scripts: configuration key -> the faults a replay file names for that world (present, possibly
+// empty: exactly these; absent: the fault schedule of the run)
+func c02Outgoing(t *testing.T, env verifEnv, sink *caseSink, cfgs []c02Cfg, scripts map[string][]c02FaultSpec) {
 	rounds := 2
 	if env.thorough() {
 		rounds = 12
 	}
-	var terms []string
+	terms := make([][]string, len(cfgs))
+	fates := make([][]string, len(cfgs))
+	total := 0
 	kinds := map[string]bool{}
+	faulted := map[string]bool{}
 	seenRnd := map[string]int{}
 	// every configuration has its own server, fake backends and clients: the histories run side by
 	// side (they mostly wait for the network), the records are collected one world at a time
@@ -1891,6 +2247,8 @@ func c02Outgoing(t *testing.T, env verifEnv, sink *caseSink, cfgs []c02Cfg) {
 				t.Parallel()
 				id := 700000 + 4000*ci
 				w := c02NewWorld(t, cfg, false)
+				script, scripted := scripts[cfg.key()]
+				w.plan = c02NewFaultPlan(env.seed, ci, script, scripted)
 				if cfg.Reload {
 					w.reloadHistory(newVrng(env.seed, uint64(880000+ci)))
 					if env.thorough() {
@@ -1900,6 +2258,9 @@ func c02Outgoing(t *testing.T, env verifEnv, sink *caseSink, cfgs []c02Cfg) {
 				} else {
 					for round := 0; round < rounds; round++ {
 						for b := range cfg.Backends {
+							if w.plan.done() {
+								break // replay of named faults: the history ends with the drive in which the last one struck
+							}
 							w.drive(b+1, round)
 						}
 					}
@@ -1909,7 +2270,17 @@ func c02Outgoing(t *testing.T, env verifEnv, sink *caseSink, cfgs []c02Cfg) {
 				defer collect.Unlock()
 				w.fake.mu.Lock()
 				defer w.fake.mu.Unlock()
-				for _, r := range w.fake.recs {
+				if w.fake.busy != 0 {
+					sink.violation(id, fmt.Sprintf("%s: %d requests still being handled at the end of the history (harness)", cfg.Name, w.fake.busy), nil)
+				}
+				for k, l := range w.fake.armed {
+					if len(l) > 0 {
+						sink.violation(id, fmt.Sprintf("%s: a fault armed for %s at endpoint %d never struck (harness)", cfg.Name, k.kind, k.id), nil)
+					}
+				}
+				inWorld := map[string]int{} // random -> index of the first record of this world that carried it
+				first := id + 1
+				for ri, r := range w.fake.recs {
 					id++
 					if r.NRnd != 1 || r.NChk != 1 {
 						sink.violation(id, fmt.Sprintf("request %s to backend %d carries %d random and %d checksum headers", r.Kind, r.Backend, r.NRnd, r.NChk), nil)
@@ -1928,11 +2299,44 @@ func c02Outgoing(t *testing.T, env verifEnv, sink *caseSink, cfgs []c02Cfg) {
 					}
 					curCoq, curMac, curHex := optHex(r.Cur)
 					lookCoq, lookMac, lookHex := optHex(r.Look)
-					terms = append(terms, fmt.Sprintf("mkout %d%%N %s %s \"%s\" \"%s\" \"%s\" \"%s\" \"%s\"", id, curCoq, lookCoq, hexS(r.Rnd), hexS(r.Chk),
+					terms[ci] = append(terms[ci], fmt.Sprintf("mkout %d%%N %s %s \"%s\" \"%s\" \"%s\" \"%s\" \"%s\"", id, curCoq, lookCoq, hexS(r.Rnd), hexS(r.Chk),
 						hex.EncodeToString(r.Body), curMac, lookMac))
-					js, _ := json.Marshal(c02Case{Id: id, Cfg: cfg, Outgoing: &c02OutJson{Backend: r.Backend, Kind: r.Kind, Rnd: hexS(r.Rnd), Chk: hexS(r.Chk), Body: hex.EncodeToString(r.Body),
-						Phase: r.Phase, Secret: curHex, Lookup: lookHex}})
+					total++
+					oj := &c02OutJson{Backend: r.Backend, Kind: r.Kind, Rnd: hexS(r.Rnd), Chk: hexS(r.Chk), Body: hex.EncodeToString(r.Body),
+						Phase: r.Phase, Secret: curHex, Lookup: lookHex, Fault: r.Fault, Path: r.Path}
+					// the faults this request was sent under, for the replay: the one that struck the earlier
+					// request with the same random, or the one that struck this request
+					var under *[]c02FaultSpec
+					if r.Spec != nil {
+						under = &[]c02FaultSpec{*r.Spec}
+					}
+					if pi, dup := inWorld[r.Rnd]; dup {
+						pr := w.fake.recs[pi]
+						oj.SameRandomAs = &c02OutRef{Id: first + pi, Backend: pr.Backend, Kind: pr.Kind, Phase: pr.Phase, Fault: pr.Fault}
+						if pr.Spec != nil {
+							under = &[]c02FaultSpec{*pr.Spec}
+						}
+					} else {
+						inWorld[r.Rnd] = ri
+					}
+					js, _ := json.Marshal(c02Case{Id: id, Cfg: cfg, Outgoing: oj, Faults: under})
 					sink.jsonl.Write(append(js, '\n'))
+					if r.Spec != nil {
+						for _, o := range w.outcomes {
+							if o.Spec == *r.Spec {
+								fates[ci] = append(fates[ci], fmt.Sprintf("(%d%%N, %s, %s)", id, c02FateCoq(r.Fault), coqBool(o.Ok)))
+								sink.count(fmt.Sprintf("outgoing_fault_outcome_ok_%v", o.Ok))
+							}
+						}
+					}
+					if r.Fault != "" {
+						sink.count("outgoing_fault_" + r.Fault)
+						sink.count("outgoing_fault_kind_" + r.Kind)
+						faulted[r.Kind+"|"+r.Fault] = true
+						if cfg.Reload {
+							sink.count("outgoing_fault_after_" + r.Phase)
+						}
+					}
 					sink.stats.Evaluations++
 					sink.count("outgoing_" + r.Kind)
 					sink.count("outgoing_" + cfg.Name)
@@ -1950,18 +2354,36 @@ func c02Outgoing(t *testing.T, env verifEnv, sink *caseSink, cfgs []c02Cfg) {
 			sink.violation(800000, "the outgoing scenario did not make the server send a request of kind "+k+" (harness)", nil)
 		}
 	}
-	sort.Strings(terms)
-	sink.stats.Histogram["outgoing_requests"] = len(terms)
-	// shards of 150 records; freshness is judged per shard and over all randoms in the last file
-	for i := 0; i < len(terms); i += 150 {
-		j := i + 150
-		if j > len(terms) {
-			j = len(terms)
+	if scripts == nil {
+		// every kind of request met a connection that was closed without an answer; every other fault struck somewhere
+		for _, k := range []string{"auth", "room/join", "room/leave", "ping", "session/add", "session/remove"} {
+			if !faulted[k+"|drop"] {
+				sink.violation(800001, "the outgoing scenario never closed the connection of a request of kind "+k+" without answering (harness)", nil)
+			}
 		}
-		sink.extraFile(fmt.Sprintf("out_%03d", i/150), "From Coq Require Import List ZArith NArith String.\nFrom Verif Require Import corr.Run_C02.\nImport ListNotations.\n"+
-			"Definition result := Eval vm_compute in judge_out "+coqList(terms[i:j])+".\nPrint result.\n")
+		for _, m := range append([]string{"slow"}, c02FaultModes...) {
+			n := 0
+			for k := range faulted {
+				if strings.HasSuffix(k, "|"+m) {
+					n++
+				}
+			}
+			if n == 0 {
+				sink.violation(800002, "the outgoing scenario never injected the fault "+m+" (harness)", nil)
+			}
+		}
+	}
+	sink.stats.Histogram["outgoing_requests"] = total
+	// one file per world, in the order the requests arrived: P_out is about all requests a server sent
+	// (each on its own, and no random twice); worlds with many requests are also judged in overlapping halves
+	for ci := range cfgs {
+		if len(terms[ci]) == 0 {
+			continue
+		}
+		sink.extraFile(fmt.Sprintf("out_%03d", ci), "From Coq Require Import List ZArith NArith String.\nFrom Verif Require Import corr.Run_C02.\nImport ListNotations.\n"+
+			"Definition result := Eval vm_compute in (judge_out_world "+coqList(terms[ci])+" ++ judge_fates "+coqList(fates[ci])+")%list.\nPrint result.\n")
 	}
 	sink.stats.Notes = append(sink.stats.Notes,
-		"outgoing randoms are compared pairwise inside each shard of 150 requests and over the whole run by the harness: a statistical freshness test, not a proof",
+		"outgoing: every request that arrives at a fake backend is recorded before the backend answers or fails (connection closed without / in the middle of the answer, 500, no answer until the server's timeout); the records of a world are judged together by P_out (each request signed for the backend in force, no random used twice), the randoms of the whole run are compared by the harness as well",
 		"capabilities GET requests carry no checksum by protocol and are outside the statement")
 }
